@@ -986,7 +986,7 @@ func TestVerifC27Fsm(t *testing.T) {
 	r.Note("store_owned_fields_zeroed", "metadb.Channel{SubscriberMutationVersion,SubscriberCount,DirectoryProjectionState,DirectoryProjectionGeneration}, ChannelRuntimeMeta.DirectoryGeneration, PersonDirectoryTask.Generation have no wire tag (maintained by the store) and are generated as zero")
 	r.Note("prefix_policy", "TLV commands: a prefix ending on a top-level TLV boundary is a complete frame with fewer fields (documented forward-compatible format); accepted prefixes of that kind are counted, every other accepted prefix is a violation")
 
-	b := c27.Budget{Values: r.N(12, 250), MutationsPer: r.N(6, 20), HostileValues: r.N(1, 8), RandomInputs: r.N(250, 8000), MaxTruncs: r.N(80, 1600), HostileOffs: r.N(120, 1600), Workers: 6}
+	b := c27.Budget{Values: r.N(12, 150), MutationsPer: r.N(6, 20), HostileValues: r.N(1, 5), RandomInputs: r.N(250, 5000), MaxTruncs: r.N(80, 1600), HostileOffs: r.N(120, 1600), Workers: 6}
 	c27.Drive(r, codecs, b)
 
 	// extra: the TLV length field carries 32 bits; a frame whose only field
